@@ -123,7 +123,7 @@ fn handle(line: &str) -> Option<String> {
     let f: Vec<&str> = line.split_whitespace().collect();
     let op = *f.first()?;
     let od = |r: Option<Decimal>| r.map(dec_to_wire).unwrap_or_else(|| "none".into());
-    if op.starts_with('d') && op != "div" {
+    if op.starts_with('d') && op != "div" && !op.starts_with("display") {
         // decimal family
         match op {
             "dparse" => {
